@@ -422,7 +422,9 @@ def add_mime_diff(key, avalue, bvalue, diffbuilder):
     mimetype = key.lower()
     if isinstance(avalue, str) and isinstance(bvalue, str) and avalue == bvalue:
         return
-    if any(mimetype.startswith(tm) for tm in _split_mimes):
+    if (any(mimetype.startswith(tm) for tm in _split_mimes) and
+            type(avalue) is type(bvalue) and
+            isinstance(avalue, (str, list, dict))):
         dd = diff(avalue, bvalue)
         if dd:
             diffbuilder.patch(key, dd)
